@@ -261,6 +261,18 @@ class Comparer(object):
             return
         if isinstance(a, SSet) and isinstance(b, SSet):
             return
+        if isinstance(a, I.SReg) and isinstance(b, I.SReg):
+            # unit registries: same user definitions (name -> scale, dimension)
+            if set(a.defs) != set(b.defs):
+                self.mismatch(name, 'registry definitions %s vs %s' % (sorted(a.defs), sorted(b.defs)))
+                return
+            for k in sorted(a.defs):
+                ua, ub = a.defs[k], b.defs[k]
+                if tuple(ua.dims) != tuple(ub.dims):
+                    self.mismatch('%s[%s]' % (name, k), 'dimension differs')
+                else:
+                    self.goal('%s[%s].scale' % (name, k), mk_eq(ua.scale, ub.scale))
+            return
         if isinstance(a, I.SQty) and isinstance(b, I.SQty):
             from .models import qty_compare
             qty_compare(self, name, a, b)
